@@ -302,6 +302,18 @@ def run_case(case):
         if len(effects) > limit:
             tab.finish()
             break
+    if case.get('poke_after_finish'):
+        # a finished tableau (finished by hand, before completion): step() / build() change nothing, so everything
+        # published after finishing still describes the tableau
+        before = rec.fp(rec.view())
+        h0, nb0_ = len(tab.history), len(tab)
+        try:
+            r1 = tab.step()
+            tab.build()
+        except Exception as e:  # noqa
+            r1 = 'err:' + type(e).__name__
+        if r1 is not None or len(tab.history) != h0 or len(tab) != nb0_ or rec.fp(rec.view()) != before:
+            bad('after-finish', f'step()/build() on a finished tableau changed it (step returned {r1!r}, history {h0} -> {len(tab.history)})')
     effects.append(['F'])
     v = rec.view()
     fps.append(rec.fp(v))
